@@ -23,11 +23,11 @@ Definition cans := @ans G F.
 Definition cev := @ev G.
 
 (* the evaluation function used by the harness: a function of the genotype only *)
-Record evp := mkevp { ev_a : Z; ev_b : Z; ev_m : Z; ev_two : bool }.
+Record evp := mkevp { ev_a : Z; ev_b : Z; ev_m : Z; ev_two : bool; ev_off : Z }.
 Fixpoint wsum (k : Z) (g : list Z) : Z :=
   match g with [] => 0%Z | x :: r => (k * x + wsum (k + 1) r)%Z end.
 Definition ev_fun (p : evp) (g : G) : F :=
-  ((ev_a p * wsum 1 g + ev_b p) mod ev_m p)%Z ::
+  ((ev_a p * wsum 1 g + ev_b p) mod ev_m p + ev_off p)%Z ::
   (if ev_two p then [(Z.of_nat (length g) - fold_left Z.add g 0)%Z] else []).
 
 (* Fitness.__le__ : wvalues <= other.wvalues, wvalues = values * weights *)
